@@ -60,6 +60,18 @@ Theorem C12_reassembly_complete :
 Proof. exact reassembly_complete_list. Qed.
 Print Assumptions C12_reassembly_complete.
 
+(* the premises above bound bytes (max_size) and fragments (max_count) exactly as Push does, and
+   message_seq < 65536; NOTHING bounds the number of messages under reassembly at once.  Witness: ten
+   fragmented messages arriving last message first - nothing delivered and ten cache entries until the
+   last record, then all ten delivered in order *)
+Theorem C12_many_messages_reverse_delivered :
+  length mm_history = 30%nat /\
+  map strip (snd (fst (run init mm_history))) = map hstrip mm_msgs /\
+  snd (fst (run init (removelast mm_history))) = [] /\
+  length (cache (fst (fst (run init (removelast mm_history))))) = 10%nat.
+Proof. exact many_messages_reverse_delivered. Qed.
+Print Assumptions C12_many_messages_reverse_delivered.
+
 (* ---- retransmissions ---- *)
 Theorem C12_retransmit_flag :
   forall st ep fs,
